@@ -117,6 +117,12 @@ def make_ws(ws: Path, w, base: Path = None):
         # as `deprecated list --fix` does: jobs/<new task>/<new id> -> (absolute) jobs/<old task>/<old id>
         (ws / "jobs" / l["task"]).mkdir(exist_ok=True)
         os.symlink(ws / "jobs" / l["to"][0] / l["to"][1], ws / "jobs" / l["task"] / l["hash"])
+    for st in w.get("strays", []):
+        (ws / "jobs" / st["task"]).mkdir(exist_ok=True)
+        if st["kind"] == "file":
+            (ws / "jobs" / st["task"] / st["name"]).write_text("not a job\n")
+        else:
+            os.symlink(ws / "jobs" / st["task"] / "gone", ws / "jobs" / st["task"] / st["name"])
     for x in w["xps"]:
         xd = ws / "xp" / x["name"]
         xd.mkdir()
